@@ -268,7 +268,8 @@ def run(ctx):
     ctx.check(not bad, R4, 'bencode/bdecode:round-trip-on-bit-group-representatives', ('%s: %s' % bad[0]) if bad else '', bdec.where, detail={'points': npts})
     es, ds = P.fn('cppcms::b64url::encoded_size'), P.fn('cppcms::b64url::decoded_size')
     bad = []
-    for s_ in range(0, 64):
+    SIZES = list(range(0, 1100)) + [4095, 4096, 4097, 65535, 65536, 65537, 1000000, 1000001, 1000002, 1000003]
+    for s_ in SIZES:
         it = absint.Interp(P, [])
         r = it.call_fn(es, [AV.const(s_)])
         exp = 4 * (s_ // 3) + (0, 2, 3)[s_ % 3]
@@ -279,12 +280,8 @@ def run(ctx):
         exp = -1 if s_ % 4 == 1 else 3 * (s_ // 4) + (0, 0, 1, 2)[s_ % 4]
         if not (r.is_const() and r.lo == exp):
             bad.append((s_, 'decoded_size=%r expected %d' % (r, exp)))
-    ctx.check(not bad, R4, 'encoded_size/decoded_size:exact-for-0..63', ('size %d: %s' % bad[0]) if bad else '', ds.where)
-    # the formulas are affine in s/3 (s/4) on each residue: check the shape so that 0..63 generalises
-    for fn, mod in ((es, 3), (ds, 4)):
-        sw = [i for i in fn.walk() if fn.N(i)['k'] == 'SwitchStmt']
-        okc = len(sw) == 1 and any(fn.N(j)['k'] == 'BinaryOperator' and fn.N(j).get('op') == '%' and fn.const_value(fn.N(j)['ch'][1]) == mod for j in fn.walk(fn.N(sw[0])['cond']))
-        ctx.check(okc, R4, '%s:switch-on-residue' % fn.short, 'size formula is not a case split on s %% %d (an invalid residue could fall into a valid formula)' % mod, fn.where)
+    ctx.check(not bad, R4, 'encoded_size/decoded_size:exact-for-0..1099-and-samples', ('size %d: %s' % bad[0]) if bad else '', ds.where)
+    # every size of the property's quantifier (0..1024) is evaluated; no assumption on the shape of the formula (switch, table, if-chain)
     dstr = [f for f in P.by_bname.get('cppcms::b64url::decode', []) if 'std::basic_string' in f.id]
     ctx.require(len(dstr) == 1, 'C15.R4: b64url::decode(string,string&) not found')
     dstr = dstr[0]
@@ -360,51 +357,85 @@ def run(ctx):
     esb = [f for f in P.by_bname.get('cppcms::util::escape', []) if len(f.params) == 3 and 'basic_streambuf' in f.id]
     ctx.require(len(esb) == 1, 'C15.R5: util::escape(begin,end,streambuf&) not found')
     esb = esb[0]
-    sink = q.param_by_index(esb, 2)
-    wrs = [i for i in esb.calls() if esb.N(i)['k'] == 'CXXMemberCallExpr' and q.short_of(esb.callee(i)) in ('sputn', 'sputc') and esb.ref_of(esb.obj(i)) == sink]
-    ctx.check(len(wrs) >= 2, R5, 'escape(streambuf):writes', 'no stream-buffer writes found', esb.where)
-    heads = set(esb.point_of(esb.N(L)['cond'])[0] for L in q.loops(esb) if esb.N(L).get('cond', -1) is not None and esb.N(L).get('cond', -1) >= 0 and esb.point_of(esb.N(L)['cond']))
-    ok_rets = [r for r in esb.returns() if esb.ret_value(r) is not None and esb.const_value(esb.ret_value(r)) == 0]
-    for k, w in enumerate(wrs):
-        # the comparison that turns the write result into success / failure
-        cmpn, succ_pol = None, None
-        for a in esb.ancestors(w):
-            n = esb.N(a)
-            if n['k'] == 'BinaryOperator' and n.get('op') in ('==', '!='):
-                other = [c for c in n['ch'] if w not in set(esb.walk(c))]
-                cv = esb.const_value(other[0]) if other else None
-                if cv is not None:
-                    sh = q.short_of(esb.callee(w))
-                    if sh == 'sputn':
-                        want_n = esb.const_value(esb.args(w)[1])
-                        succ_pol = (n['op'] == '==') if cv == want_n else None
+    checked = {}
+
+    def sink_params(f):
+        return [p_['ref'] for p_ in f.params if 'basic_streambuf' in (f.types[p_['t']] or '')]
+
+    def failure_discipline(f, label):
+        """every write to the stream-buffer parameter of f - direct (sputn/sputc) or through a helper that takes the buffer and
+        reports a status - decides whether f goes on: from the write no path reaches the next loop iteration or a success return
+        except over the 'this write succeeded' edge.  Returns the number of write sites checked."""
+        if f.id in checked:
+            return checked[f.id]
+        checked[f.id] = 0
+        sinks = sink_params(f)
+        isbool = (f.ret or '').replace('const ', '').strip() in ('bool', '_Bool')
+        heads = set(f.point_of(f.N(L)['cond'])[0] for L in q.loops(f) if f.N(L).get('cond', -1) is not None and f.N(L).get('cond', -1) >= 0 and f.point_of(f.N(L)['cond']))
+        ok_rets = [r for r in f.returns() if f.ret_value(r) is not None and f.const_value(f.ret_value(r)) is not None and (bool(f.const_value(f.ret_value(r))) if isbool else f.const_value(f.ret_value(r)) == 0)]
+        sites = []
+        for i in f.calls():
+            n = f.N(i)
+            if n['k'] == 'CXXMemberCallExpr' and q.short_of(f.callee(i)) in ('sputn', 'sputc') and f.ref_of(f.obj(i)) in sinks:
+                sites.append((i, 'direct'))
+            elif n['k'] == 'CallExpr' and n.get('callee') in P.fns and P.fns[n['callee']] is not f and any(f.ref_of(a_) in sinks for a_ in f.args(i)):
+                g = P.fns[n['callee']]
+                if sink_params(g) and g.file == f.file and failure_discipline(g, q.short_of(g.bname)) > 0:
+                    sites.append((i, 'helper'))
+        for k, (w, kind) in enumerate(sites):
+            cmpn, succ_pol = None, None
+            if kind == 'helper':
+                g = P.fns[f.N(w)['callee']]
+                gbool = (g.ret or '').replace('const ', '').strip() in ('bool', '_Bool')
+                if gbool:
+                    cmpn, succ_pol = w, True
+            if cmpn is None:
+                for a_ in f.ancestors(w):
+                    n = f.N(a_)
+                    if n['k'] == 'BinaryOperator' and n.get('op') in ('==', '!='):
+                        other = [c for c in n['ch'] if w not in set(f.walk(c))]
+                        cv = f.const_value(other[0]) if other else None
+                        if cv is not None:
+                            sh = q.short_of(f.callee(w))
+                            if kind == 'helper':
+                                succ_pol = (n['op'] == '==') if cv == 0 else None          # int status: 0 is success
+                            elif sh == 'sputn':
+                                want_n = f.const_value(f.args(w)[1])
+                                succ_pol = (n['op'] == '==') if cv == want_n else None
+                            else:
+                                succ_pol = (n['op'] == '!=') if cv == -1 else None
+                            cmpn = a_
+                        break
+                    if n['k'] in ('CompoundStmt', 'CaseStmt', 'DefaultStmt', 'SwitchStmt', 'WhileStmt', 'ForStmt'):
+                        break
+            okw = cmpn is not None and succ_pol is not None
+            if okw:
+                # (a) the verdict is what the function returns: `return write(...) == n;`
+                rexp = [r for r in f.returns() if f.ret_value(r) is not None and cmpn in set(f.walk(f.ret_value(r)))]
+                if rexp and isbool:
+                    okw = all(any(a2 == cmpn and p2 is succ_pol for (a2, p2) in f.cond_facts(f.ret_value(r), True)) for r in rexp)
+                else:
+                    par = f.parent.get(cmpn)
+                    flag = None
+                    while par is not None and f.N(par)['k'] in ('ParenExpr', 'ImplicitCastExpr'):
+                        par = f.parent.get(par)
+                    if par is not None and f.N(par)['k'] == 'BinaryOperator' and f.N(par).get('op') == '=':
+                        flag = f.ref_of(f.N(par)['ch'][0])
+                    elif par is not None and f.N(par)['k'] == 'DeclStmt':
+                        flag = [d['ref'] for d in f.N(par)['decls'] if d.get('init') is not None and cmpn in set(f.walk(d['init']))][0]
+                    if flag is not None:
+                        gate = f.gate_edges(lambda atom, pol: f.N(atom)['k'] == 'DeclRefExpr' and f.N(atom).get('ref') == flag and pol is succ_pol)
                     else:
-                        succ_pol = (n['op'] == '!=') if cv == -1 else None
-                    cmpn = a
-                break
-            if n['k'] in ('CompoundStmt', 'CaseStmt', 'DefaultStmt', 'SwitchStmt', 'WhileStmt', 'ForStmt'):
-                break
-        okw = cmpn is not None and succ_pol is not None
-        if okw:
-            par = esb.parent.get(cmpn)
-            flag = None
-            while par is not None and esb.N(par)['k'] in ('ParenExpr', 'ImplicitCastExpr'):
-                par = esb.parent.get(par)
-            if par is not None and esb.N(par)['k'] == 'BinaryOperator' and esb.N(par).get('op') == '=':
-                flag = esb.ref_of(esb.N(par)['ch'][0])
-            elif par is not None and esb.N(par)['k'] == 'DeclStmt':
-                flag = [d['ref'] for d in esb.N(par)['decls'] if d.get('init') is not None and cmpn in set(esb.walk(d['init']))][0]
-            if flag is not None:
-                gate = esb.gate_edges(lambda atom, pol: esb.N(atom)['k'] == 'DeclRefExpr' and esb.N(atom).get('ref') == flag and pol is succ_pol)
-                # the flag still holds this write's verdict when it is tested: no other definition in between is needed for a
-                # switch of single assignments; every path from the write to the next iteration / a success return passes the gate
-            else:
-                gate = esb.gate_edges(lambda atom, pol: atom == cmpn and pol is succ_pol)
-            pw = esb.point_of(w)
-            reach = esb.reachable_blocks(start=pw[0], cut_edges=[e for e in gate if len(e) == 4])
-            cont = [b for b in heads if b in reach and b != pw[0]] + [r for r in ok_rets if esb.point_of(r)[0] in reach]
-            okw = bool(gate) and not cont
-        ctx.check(okw, R5, 'escape(streambuf):write#%d:failure-reaches-minus-one' % k, 'the result of a stream-buffer write is not tested, or escape can go on / return 0 after a failed write', esb.loc(w))
+                        gate = f.gate_edges(lambda atom, pol: atom == cmpn and pol is succ_pol)
+                    pw = f.point_of(w)
+                    reach = f.reachable_blocks(start=pw[0], cut_edges=[e for e in gate if len(e) == 4])
+                    cont = [b_ for b_ in heads if b_ in reach and b_ != pw[0]] + [r for r in ok_rets if f.point_of(r)[0] in reach]
+                    okw = bool(gate) and not cont
+            ctx.check(okw, R5, '%s:write#%d:failure-reaches-the-status' % (label, k), 'the result of a stream-buffer write is not tested, or the function goes on / reports success after a failed write', f.loc(w))
+        checked[f.id] = len(sites)
+        return len(sites)
+    nw = failure_discipline(esb, 'escape(streambuf)')
+    ctx.check(nw >= 1 and sum(checked.values()) >= 2, R5, 'escape(streambuf):writes', 'no stream-buffer writes found', esb.where)
     eso = [f for f in P.by_bname.get('cppcms::util::escape', []) if len(f.params) == 3 and 'basic_ostream' in f.id]
     if eso:
         f = eso[0]
